@@ -126,7 +126,9 @@ _m("C03",
    "(c) Every data write (write/write_all/flush, mapped copy_from_slice, fallocate) targets the private temp handle, a mapping of "
    "it, or an append-only bucket. (f) A staging file that is pre-allocated to the declared size is either mapped — and then trimmed to the bytes "
    "actually written before publication — or given back (set_len(0)) when the mapping fails: plain writes never go into a "
-   "pre-sized file, so no data+padding file can be published. (e) close() reports success only if persist returned Ok or an existence probe of the same "
+   "pre-sized file, so no data+padding file can be published. (g) What is published matches its address: the digest/sink agreement and the address clause of C02 (a, d) are "
+   "re-checked here — the digest is fed exactly the bytes the staging file accepted, and the rename target is content_path(cache, "
+   "that digest). (e) close() reports success only if persist returned Ok or an existence probe of the same "
    "destination succeeded (sync: gate-cut reachability; async: every value sent on the result channel is status-tied to persist, "
    "to stat(same destination), or is an earlier step's result sent under is_err()).",
    "The state of the content area at every kill instant, torn writes, kernel rename semantics, page-cache visibility of the "
@@ -142,9 +144,12 @@ _m("C09",
    "nothing else; RemoveOpts = the tombstone set under remove_fully==false and exactly RemoveFile(Content(cache, "
    "lookup(cache,key).integrity)) + RemoveFile(Bucket(cache,key)) under remove_fully==true (arms separated by the flag's "
    "switch); clear = RemoveDirAll(Child(read_dir(cache))) inside a loop whose only non-error exit is the iterator's end. "
-   "The key / integrity selecting the bucket / content address is the entry point's own parameter travelling by identity.",
+   "The key / integrity selecting the bucket / content address is the entry point's own parameter travelling by identity. "
+   "(e) The appended tombstone makes the key not found for reads, metadata and listing: the lookup clauses of C05 b (last record "
+   "of the key wins, a None-integrity record clears) and the listing clauses of C10 b–d (last-wins de-duplication by key in file "
+   "order, tombstones dropped after de-duplication) are re-checked here.",
    "Effects on other keys that share the same content file (a semantic question about data sharing); SHA-1 bucket "
-   "collisions; outcomes for keys never written; what the lookups return afterwards (C05).",
+   "collisions; outcomes for keys never written.",
    "parametric effect summaries instantiated at the public removal entry points (upper and lower bounds)",
    "exhaustive static analysis of the effect set of each removal entry point in every configuration (necessary conditions)")
 
@@ -170,8 +175,11 @@ _m("C20",
    "read-amount / prefix-len, range-full, len-just-set, same-length (symbolic length equality), reserved-before, "
    "overflow-guarded, lock-poison / join-error (discharged only if the guarded code has no undischarged site), "
    "stub-unreachable, derive-generated, and the assumption classes well-formed-integrity (named in the property), "
-   "clock-after-epoch and counter-overflow. A site with no applicable rule is reported.",
-   "Hangs / termination of the poll and verify/consume loops; panics raised inside dependencies for inputs the model does not "
+   "clock-after-epoch and counter-overflow. A site with no applicable rule is reported. Hangs: the one class visible in the "
+   "shape of the code is decided — a loop that goes round again only through the error arm of a fallible call inside it "
+   "(retry-until-success) must be bounded by a counter; loops that also go round on success (read, line and poll loops) are "
+   "data-driven and not decided.",
+   "Termination of the data-driven loops (poll state machines, verify/consume/read loops); panics raised inside dependencies for inputs the model does not "
    "cover (e.g. ssri on malformed integrity values found on disk); stack or heap exhaustion; allocation failure.",
    "MIR panic-site enumeration + per-site discharge rules (dominance, symbolic terms, dependency closure)",
    "exhaustive static enumeration of explicit panic sites with proof obligations; says nothing about non-termination")
@@ -258,7 +266,8 @@ _m("C17",
    "bytes, unchanged)); content path = cache / ('content-v' ++ '2') / <algorithm Display> / x[0..2] / x[2..4] / x[4..] with "
    "(algorithm, x) = sri.to_hex(); record = \"\\n\" ++ hex(SHA-256(json)) ++ \"\\t\" ++ json in every insert (sync and async "
    "agree); JSON fields key, integrity, time, size, metadata, raw_metadata in that order with integrity: Option<String> (null = "
-   "removal); every reader splits fields on TAB and validates SHA-256-hex(fields[1]) == fields[0]. Path construction is "
+   "removal); every reader splits fields on TAB and validates SHA-256-hex(fields[1]) == fields[0], and (the reader clauses of C06, re-checked here) takes "
+   "every line of the bucket file, skipping exactly the records the format declares invalid. Path construction is "
    "normalised to segments (join, push and '/' inside format literals all yield segments; constants are evaluated), so the "
    "comparison is semantic: building the same path another way yields the same descriptor, while a changed version string, "
    "digest, split point, separator or field name changes it. This is not a proxy: the property is that these values are fixed.",
